@@ -189,6 +189,21 @@ def rename_column_metadata_sql(catalog: str, schema: str, table: str, column: st
     """
 
 
+def copy_text_lengths_sql(
+    catalog: str, schema: str, table: str, source_catalog: str, source_schema: str, source_table: str
+) -> str:
+    return f"""
+        INSERT INTO {catalog}.information_schema._fs_columns_ext
+        SELECT '{catalog}', '{schema}', '{table}', ext_column_name, ext_character_maximum_length, ext_character_octet_length
+        FROM {source_catalog}.information_schema._fs_columns_ext
+        WHERE ext_table_catalog = '{source_catalog}' AND ext_table_schema = '{source_schema}'
+          AND ext_table_name = '{source_table}'
+        ON CONFLICT (ext_table_catalog, ext_table_schema, ext_table_name, ext_column_name)
+        DO UPDATE SET ext_character_maximum_length = excluded.ext_character_maximum_length,
+            ext_character_octet_length = excluded.ext_character_octet_length
+    """
+
+
 def insert_table_comment_sql(catalog: str, schema: str, table: str, comment: str) -> str:
     return f"""
         INSERT INTO {catalog}.information_schema._fs_tables_ext
